@@ -1,18 +1,20 @@
 /-
 Driver ops of C03 part CobAde (served by `gmodel`, lean/Main.lean):
 
-  c03.cob.tree <src> K<hex>=<cov> …   src = `-` (no source dir) | `S<hex>`
+  c03.cob.tree <src> [D<dm>] K<hex>=<cov> …   src = `-` (no source dir) | `S<hex>`; `D…` see Drv/C03FnOrder
       -> `ok <xml>` | `panic`      the element tree of `output_cobertura`, canonical text:
          elem = `(tag k=v k=v child child)`, text = `"<hex>`, v = `x<hex of the value bytes>` | `~`
-         (floats and the timestamp); methods of a class sorted by name bytes (hash-map order)
+         (floats and the timestamp); everything in DOCUMENT order – the methods of a class in the
+         order the model lists them (`Writers.sortByName`), under their printed names
   c03.cob.stem P<hex>                 -> `<hex>`  class name of a path (`Path::file_stem`)
-  c03.ade K<hex>=<cov> …
-      -> `ok <rec> <rec> …` | `panic`   one record per function (sorted by name inside a file),
-         then the file record:
+  c03.ade [D<dm>] K<hex>=<cov> …
+      -> `ok <rec> <rec> …` | `panic`   per file one record per function (in the model's listed
+         order), then the file record:
          `M<file>|<name>|c,c|u,u|tc|tu`   `F<file>|c,c|u,u|tc|tu|oc,oc|ou,ou|otc|otu`
 -/
 import GrcovModel.Writers.CobAde
 import GrcovModel.Drv.Merge
+import GrcovModel.Drv.C03FnOrder
 namespace Grcov.Drv.CobAde
 open Grcov Grcov.Drv Grcov.Stats Grcov.Writers.CobAde
 
@@ -36,20 +38,13 @@ def showXmls : List Xml → String
   | x :: xs => " " ++ showXml x ++ showXmls xs
 end
 
-def sortMethods (ms : List CMethod) : List CMethod :=
-  ms.mergeSort fun a b => !(lexLt b.name a.name)
-
-def canonDoc (d : Doc) : Doc :=
-  { d with packages := d.packages.map fun p =>
-      { p with classes := p.classes.map fun k => { k with methods := sortMethods k.methods } } }
-
 def parseEntries (entries : List String) : Option (List (Name × Cov)) :=
   entries.mapM fun e =>
     if e.startsWith "K" then
       match (e.drop 1).toString.splitOn "=" with
       | [k, cov] => do
         let c ← parseCov cov
-        pure ((← fromHex k), { c with functions := sortBytesKeys c.functions })
+        pure ((← fromHex k), c)
       | _ => none
     else none
 
@@ -59,13 +54,16 @@ def parseSrc (s : String) : Option (Option Name) :=
   else none
 
 def handleCobTree : List String → String
-  | src :: entries =>
-    match parseSrc src, parseEntries entries with
-    | some src, some rs =>
-      match cobertura src rs with
-      | .ok d => "ok " ++ showXml (toXml (canonDoc d))
-      | .panic _ => "panic"
-    | _, _ => "bad-op"
+  | src :: args =>
+    match Grcov.Drv.FnOrder.takeDm args with
+    | some (dm, entries) =>
+      match parseSrc src, parseEntries entries with
+      | some src, some rs =>
+        match Grcov.Writers.FnOrder.cobertura dm src rs with
+        | .ok d => "ok " ++ showXml (toXml d)
+        | .panic _ => "panic"
+      | _, _ => "bad-op"
+    | none => "bad-op"
   | _ => "bad-op"
 
 def handleCobStem : List String → String
@@ -83,12 +81,15 @@ def showAdeRecord : AdeRecord → String
   | .method f n m => s!"M{toHex f}|{toHex n}|{showAdeLists m}"
   | .file f l o => s!"F{toHex f}|{showAdeLists l}|{showAdeLists o}"
 
-def handleAde (entries : List String) : String :=
-  match parseEntries entries with
-  | some rs =>
-    match ade rs with
-    | .ok recs => joinWith " " ("ok" :: recs.map showAdeRecord)
-    | .panic _ => "panic"
+def handleAde (args : List String) : String :=
+  match Grcov.Drv.FnOrder.takeDm args with
+  | some (dm, entries) =>
+    match parseEntries entries with
+    | some rs =>
+      match Grcov.Writers.FnOrder.ade dm rs with
+      | .ok recs => joinWith " " ("ok" :: recs.map showAdeRecord)
+      | .panic _ => "panic"
+    | none => "bad-op"
   | none => "bad-op"
 
 end Grcov.Drv.CobAde
